@@ -93,7 +93,7 @@ def cases(tier, seed):
                ["--noopt", "pka"], ["--nodebump", "pka"]][(i // 6) % 8]
         o = [f"--ff={ff}"] + [x for x in cyc if x != "pka"] + (pkastub.titration_opts(rng) if "pka" in cyc else [])
         out.append({"kind": "run", "w": "synth", "seed": seed * 900001 + i, "ff": ff, "opts": o,
-                    "p": {"crowd_prob": 0.6, "crowd_heavy_prob": 1.0, "carbon_obstacle_prob": 0.5, "minlen": 5, "maxlen": 9, "na": False, "waters": [0],
+                    "p": {"crowd_prob": 0.6, "crowd_heavy_prob": 1.0, "carbon_obstacle_prob": 0.5, "shuffle_atoms_prob": 0.3, "minlen": 5, "maxlen": 9, "na": False, "waters": [0],
                           "hydrogens": ["none", "none", "some"], "variant_prob": 0.05,
                           "pool": ["ARG", "LYS", "GLU", "GLN", "MET", "ILE", "LEU", "TRP", "PHE", "TYR", "HIS", "ASN",
                                    "ASP", "THR", "VAL", "SER", "PRO", "PRO"]}})
